@@ -1,6 +1,8 @@
 import P0f.Props.C14
+import P0f.Lemmas.ImpFlags
 import P0f.Lemmas.OptEncode
 import P0f.Model.Wire
+import P0f.Model.ImpExtract
 /-
   C05 — the packet `impersonate_tcp` returns is fingerprinted as the requested signature.
 
@@ -12,87 +14,6 @@ import P0f.Model.Wire
   property oracle on the real code only, and the known findings F13 / F13b / F16b / F17 lie outside it.
 -/
 namespace P0f
-
-/-! ### what extraction reports for the output packet -/
-
-def outIsSyn (o : OutPkt) : Bool := tcpType o.flags == F_SYN
-
-def outOpts (o : OutPkt) : Opts := parseOpts (encodeOpts o.opts) (outIsSyn o)
-
-/-- `IP._from_ipv4` / `_from_ipv6` quirks, from the fields -/
-def outIpQuirks (o : OutPkt) : QSet :=
-  if o.ipVer == 6 then (qIf (o.fl != 0) .flow).union (qIf (o.tos % 4 != 0) .ecn)
-  else
-    let df := bit o.ipFlags 2
-    (qIf (o.tos % 4 != 0) .ecn).union <| (qIf (bit o.ipFlags 4) .nzMbz).union <|
-      (qIf df .df).union <| (qIf (df && o.ipId != 0) .nzId).union (qIf (!df && o.ipId == 0) .zeroId)
-
-/-- `TCP.from_packet` quirks, from the fields -/
-def outTcpQuirks (o : OutPkt) : QSet :=
-  let aF := bit o.flags 16
-  (qIf (bit o.flags 64 || bit o.flags 128 || bit o.flags 256) .ecn).union <|
-    (qIf (o.seq == 0) .zeroSeq).union <|
-    (qIf (aF && o.ack == 0) .zeroAck).union <| (qIf (!aF && o.ack != 0 && !bit o.flags 4) .nzAck).union <|
-    (qIf (bit o.flags 32) .urg).union <| (qIf (!bit o.flags 32 && o.urp != 0) .nzUrg).union <|
-    (qIf (bit o.flags 8) .push)
-
-/-- `TCPPacketSignature.from_packet` of the output -/
-def extractOut (o : OutPkt) : PktSig :=
-  let op := outOpts o
-  { ipVer := o.ipVer, olen := if o.ipVer == 6 then 0 else ((ipOptBytes o.ipOptLen).length : Int),
-    ttl := o.ttl.toNat, win := o.window, layout := op.layout, mss := op.mss, wscale := op.ws, ts := op.ts,
-    eolPad := op.eolPad,
-    hdrLen := (if o.ipVer == 6 then 40 else 20 + (ipOptBytes o.ipOptLen).length) + 20 + (encodeOpts o.opts).length,
-    hasPayload := !o.payload.isEmpty,
-    quirks := (outIpQuirks o).union ((outTcpQuirks o).union op.quirks),
-    synMss := 0 }
-
-/-! ### flag words: everything about the 9 bits by exhaustive evaluation -/
-
-theorem impFlagsB_table :
-    (List.range 512).all (fun f => [true, false].all fun a => [true, false].all fun b => [true, false].all fun c =>
-      [true, false].all fun d => [true, false].all fun e =>
-        let o := impFlagsB a b c d e f
-        decide (o < 512) && (bit o F_SYN == bit f F_SYN) && (bit o F_FIN == bit f F_FIN) && (bit o F_RST == bit f F_RST)
-          && (bit o F_ACK == (if a then false else if b then true else bit f F_ACK))
-          && (bit o F_URG == (if c then false else if d then true else bit f F_URG))
-          && (bit o F_PSH == e) && (bit o F_ECE == false) && (bit o F_CWR == false) && (bit o F_NS == false)
-          && ((tcpType o == F_SYN) == (bit o F_SYN && !bit o F_ACK && !bit o F_FIN && !bit o F_RST))) = true := by
-  decide +kernel
-
-theorem mem_bools (x : Bool) : x ∈ [true, false] := by cases x <;> simp
-
-theorem impFlagsB_facts (f : Nat) (hf : f < 512) (a b c d e : Bool) :
-    let o := impFlagsB a b c d e f
-    o < 512 ∧ bit o F_SYN = bit f F_SYN ∧ bit o F_FIN = bit f F_FIN ∧ bit o F_RST = bit f F_RST ∧
-      bit o F_ACK = (if a then false else if b then true else bit f F_ACK) ∧
-      bit o F_URG = (if c then false else if d then true else bit f F_URG) ∧
-      bit o F_PSH = e ∧ bit o F_ECE = false ∧ bit o F_CWR = false ∧ bit o F_NS = false ∧
-      (tcpType o == F_SYN) = (bit o F_SYN && !bit o F_ACK && !bit o F_FIN && !bit o F_RST) := by
-  have h := impFlagsB_table
-  simp only [List.all_eq_true] at h
-  have := h f (List.mem_range.mpr hf) a (mem_bools a) b (mem_bools b) c (mem_bools c) d (mem_bools d) e (mem_bools e)
-  simp only [Bool.and_eq_true, beq_iff_eq, decide_eq_true_eq] at this
-  obtain ⟨⟨⟨⟨⟨⟨⟨⟨⟨⟨h1, h2⟩, h3⟩, h4⟩, h5⟩, h6⟩, h7⟩, h8⟩, h9⟩, h10⟩, h11⟩ := this
-  exact ⟨h1, h2, h3, h4, h5, h6, h7, h8, h9, h10, h11⟩
-
-theorem impTcpType_table :
-    (List.range 512).all (fun f => [true, false].all fun a => [true, false].all fun b =>
-      let t := (if bit f F_SYN then F_SYN else 0) + (if bit f F_ACK then F_ACK else 0)
-      let t' := if a then clearBit t F_ACK else if b then setBit t F_ACK else t
-      ((t' == F_SYN) == (bit f F_SYN && !(if a then false else if b then true else bit f F_ACK)))) = true := by
-  decide +kernel
-
-/-- the type `_impersonate_options` reasons with is SYN exactly when the output has SYN set and ACK clear -/
-theorem impTcpType_syn (s : Sig) (b : Base) (hf : b.flags < 512) :
-    (impTcpType s b == F_SYN) =
-      (bit b.flags F_SYN && !(if s.quirks .nzAck then false else if s.quirks .zeroAck then true else bit b.flags F_ACK)) := by
-  have h := impTcpType_table
-  simp only [List.all_eq_true] at h
-  have := h b.flags (List.mem_range.mpr hf) (s.quirks .nzAck) (mem_bools _) (s.quirks .zeroAck) (mem_bools _)
-  simp only [beq_iff_eq] at this
-  unfold impTcpType
-  exact this
 
 /-! ### the class of inputs the theorem covers -/
 
@@ -140,7 +61,1194 @@ structure Supported (s : Sig) (b : Base) : Prop where
     (b.ipVer = 6 → s.ipVer = some 6 → s.quirks .df = false ∧ s.quirks .nzId = false ∧ s.quirks .zeroId = false ∧ s.quirks .nzMbz = false)
   exwsCoherent : (s.quirks .exws = true → 3 ∈ s.layout ∧ ∀ w, s.scale = some w → 14 < w) ∧
     (s.quirks .exws = false → ∀ w, s.scale = some w → w ≤ 14)
+  mssCoherent : ∀ m, s.mss = some m → 2 ∈ s.layout ∨ m = 0
+  scaleCoherent : ∀ w, s.scale = some w → 3 ∈ s.layout ∨ w = 0
   ts1Coherent : s.quirks .zeroTs1 = true → 8 ∈ s.layout
   ts2Coherent : s.quirks .nzTs2 = true → 8 ∈ s.layout ∧ impTcpType s b = F_SYN
+
+/-! ### the option list for plain layouts -/
+
+def PlainKind (k : Nat) : Prop := k = 1 ∨ k = 2 ∨ k = 3 ∨ k = 4 ∨ k = 8
+
+/-- one plain layout entry yields exactly one well-formed, non-EOL option of that kind -/
+theorem impOption_plain (s : Sig) (b : Base) (up : Option Int) (k : Nat) (c : Nat × Nat) (hk : PlainKind k)
+    (hm : ∀ m, s.mss = some m → m < 65536) (hw : ∀ w, s.scale = some w → w < 256)
+    (hok : optChoiceOk s b up k c = true) :
+    ∃ o, impOption s b up k c = ([o], false) ∧ o.kind = k ∧ o ≠ .eol ∧ o.WF ∧
+      o.wireLen = (if k = 1 then 1 else if k = 2 then 4 else if k = 3 then 3 else if k = 4 then 2 else 10) := by
+  rcases hk with rfl | rfl | rfl | rfl | rfl
+  · exact ⟨.nop, by simp [impOption], rfl, by simp, trivial, rfl⟩
+  · -- MSS
+    cases hs : s.mss with
+    | some m =>
+      exact ⟨.mss m, by simp [impOption, hs], rfl, by simp, hm m hs, rfl⟩
+    | none =>
+      cases hh : inRange (mssBounds s).1 (mssBounds s).2 b.mssHint with
+      | some h =>
+        refine ⟨.mss h, ?_, rfl, by simp, ?_, rfl⟩
+        · simp only [impOption, beq_self_eq_true, ↓reduceIte, hs]
+          rw [show mssBounds s = ((mssBounds s).1, (mssBounds s).2) from rfl]
+          simp only [hh]
+        · -- the hint passed the range test, whose upper bound is at most 65535
+          simp only [SOpt.WF]
+          cases hb : b.mssHint with
+          | none => simp [hb, inRange] at hh
+          | some v =>
+            rw [hb, inRange_some] at hh
+            split at hh
+            · rename_i hr
+              simp only [Option.some.injEq] at hh
+              have hhi : (mssBounds s).2 ≤ 65535 := by
+                unfold mssBounds
+                split
+                · simp only
+                  by_cases hz : (s.wsize : Int) = 0
+                  · simp [hz]
+                  · have : (0 : Int) < s.wsize := by omega
+                    exact Int.ediv_le_self _ (by omega)
+                · simp
+              have hlo : 0 ≤ (mssBounds s).1 := by unfold mssBounds; split <;> simp
+              omega
+            · simp at hh
+      | none =>
+        refine ⟨.mss c.1, ?_, rfl, by simp, ?_, rfl⟩
+        · simp only [impOption, beq_self_eq_true, ↓reduceIte, hs]
+          rw [show mssBounds s = ((mssBounds s).1, (mssBounds s).2) from rfl]
+          simp only [hh]
+        · simp only [SOpt.WF]
+          simp only [optChoiceOk, beq_self_eq_true, ↓reduceIte, hs] at hok
+          rw [show mssBounds s = ((mssBounds s).1, (mssBounds s).2) from rfl] at hok
+          simp only [hh, decide_eq_true_eq] at hok
+          have hhi : (mssBounds s).2 ≤ 65535 := by
+            unfold mssBounds
+            split
+            · simp only
+              by_cases hz : (s.wsize : Int) = 0
+              · simp [hz]
+              · have : (0 : Int) < s.wsize := by omega
+                exact Int.ediv_le_self _ (by omega)
+            · simp
+          omega
+  · -- window scale
+    cases hs : s.scale with
+    | some w => exact ⟨.ws w, by simp [impOption, hs], rfl, by simp, hw w hs, rfl⟩
+    | none =>
+      by_cases he : s.quirks .exws = true
+      · cases hh : inRange 15 255 b.wsHint with
+        | some h =>
+          refine ⟨.ws h, by simp [impOption, hs, he, hh], rfl, by simp, ?_, rfl⟩
+          simp only [SOpt.WF]
+          cases hb : b.wsHint with
+          | none => simp [hb, inRange] at hh
+          | some v =>
+            rw [hb, inRange_some] at hh
+            split at hh
+            · simp only [Option.some.injEq] at hh; omega
+            · simp at hh
+        | none =>
+          refine ⟨.ws c.1, by simp [impOption, hs, he, hh], rfl, by simp, ?_, rfl⟩
+          have : 15 ≤ c.1 ∧ c.1 ≤ 255 := by simpa [optChoiceOk, hs, he, hh] using hok
+          simp only [SOpt.WF]; omega
+      · have he' : s.quirks .exws = false := by simpa using he
+        cases hh : inRange 0 14 b.wsHint with
+        | some h =>
+          refine ⟨.ws h, by simp [impOption, hs, he', hh], rfl, by simp, ?_, rfl⟩
+          simp only [SOpt.WF]
+          cases hb : b.wsHint with
+          | none => simp [hb, inRange] at hh
+          | some v =>
+            rw [hb, inRange_some] at hh
+            split at hh
+            · simp only [Option.some.injEq] at hh; omega
+            · simp at hh
+        | none =>
+          refine ⟨.ws c.1, by simp [impOption, hs, he', hh], rfl, by simp, ?_, rfl⟩
+          have : 1 ≤ c.1 ∧ c.1 ≤ 13 := by simpa [optChoiceOk, hs, he', hh] using hok
+          simp only [SOpt.WF]; omega
+  · exact ⟨.sackok, by simp [impOption], rfl, by simp, trivial, rfl⟩
+  · -- timestamps
+    refine ⟨_, by simp only [impOption]; rfl, rfl, by simp, ?_, rfl⟩
+    simp only [SOpt.WF]
+    have inRange_lt : ∀ (lo : Int) (h : Option Int) (v : Nat), inRange lo 4294967295 h = some v → v < 4294967296 := by
+      intro lo h v hv
+      cases hb : h with
+      | none => simp [hb, inRange] at hv
+      | some x =>
+        rw [hb, inRange_some] at hv
+        split at hv
+        · simp only [Option.some.injEq] at hv; omega
+        · simp at hv
+    constructor
+    · split
+      · omega
+      · cases hu : inRange 1 4294967295 up with
+        | some u => simp only; exact inRange_lt _ _ _ hu
+        | none =>
+          simp only
+          cases h1 : inRange 1 4294967295 b.ts1Hint with
+          | some h => simp only; exact inRange_lt _ _ _ h1
+          | none =>
+            simp only
+            rename_i hz
+            have hz' : s.quirks .zeroTs1 = false := by simpa using hz
+            have : 120 ≤ c.1 ∧ c.1 ≤ 3153600000 := by
+              have := hok
+              simp [optChoiceOk, hz', hu, h1] at this
+              exact this.1
+            omega
+    · split
+      · split
+        · omega
+        · cases h2 : inRange 1 4294967295 b.ts2Hint with
+          | some h => simp only; exact inRange_lt _ _ _ h2
+          | none =>
+            simp only
+            rename_i hsyn hq
+            have hq' : s.quirks .nzTs2 = true := by simpa using hq
+            have : 1 ≤ c.2 ∧ c.2 ≤ 4294967295 := by
+              have := hok
+              simp [optChoiceOk, hsyn, hq', h2] at this
+              exact this.2
+            omega
+      · cases h2 : inRange 0 4294967295 b.ts2Hint with
+        | some h => simp only; exact inRange_lt _ _ _ h2
+        | none => simp
+
+/-- the whole option list for a plain layout: one well-formed option per layout entry, in order -/
+theorem plain_options (s : Sig) (b : Base) (up : Option Int) (L : List Nat) (cs : List (Nat × Nat))
+    (hL : ∀ k ∈ L, PlainKind k) (hm : ∀ m, s.mss = some m → m < 65536) (hw : ∀ w, s.scale = some w → w < 256)
+    (hok : optChoicesOkGo s b up L cs = true) :
+    (impOptionsGo s b up L cs).map SOpt.kind = L ∧ (∀ o ∈ impOptionsGo s b up L cs, o.WF) ∧
+      (∀ o ∈ impOptionsGo s b up L cs, o ≠ .eol) ∧
+      ((impOptionsGo s b up L cs).map SOpt.wireLen).sum = layoutLen L ∧
+      (∀ o ∈ impOptionsGo s b up L cs, ∃ k c, k ∈ L ∧ impOption s b up k c = ([o], false) ∧ optChoiceOk s b up k c = true) := by
+  induction L generalizing cs with
+  | nil => simp [impOptionsGo, layoutLen]
+  | cons k ks ih =>
+    have hk : PlainKind k := hL k (by simp)
+    simp only [optChoicesOkGo, Bool.and_eq_true, Bool.or_eq_true, beq_iff_eq] at hok
+    obtain ⟨hok1, hok2⟩ := hok
+    have hk0 : k ≠ 0 := by rcases hk with h | h | h | h | h <;> omega
+    have hok2' : optChoicesOkGo s b up ks cs.tail = true := by
+      rcases hok2 with h | h
+      · exact absurd h hk0
+      · exact h
+    obtain ⟨o, ho, hkind, hne, hwf, hlen⟩ := impOption_plain s b up k (cs.headD (0, 0)) hk hm hw hok1
+    obtain ⟨i1, i2, i3, i4, i5⟩ := ih cs.tail (fun x hx => hL x (by simp [hx])) hok2'
+    have hgo : impOptionsGo s b up (k :: ks) cs = o :: impOptionsGo s b up ks cs.tail := by
+      simp only [impOptionsGo, ho, Bool.false_eq_true, ↓reduceIte, List.cons_append, List.nil_append]
+    rw [hgo]
+    refine ⟨by simp [hkind, i1], ?_, ?_, ?_, ?_⟩
+    · intro x hx
+      simp only [List.mem_cons] at hx
+      rcases hx with rfl | hx
+      · exact hwf
+      · exact i2 x hx
+    · intro x hx
+      simp only [List.mem_cons] at hx
+      rcases hx with rfl | hx
+      · exact hne
+      · exact i3 x hx
+    · simp only [List.map_cons, List.sum_cons, i4, hlen, layoutLen]
+    · intro x hx
+      simp only [List.mem_cons] at hx
+      rcases hx with rfl | hx
+      · exact ⟨k, _, by simp, ho, hok1⟩
+      · obtain ⟨k', c', hk', h1, h2⟩ := i5 x hx
+        exact ⟨k', c', by simp [hk'], h1, h2⟩
+
+/-! ### the quirk set extraction reports, quirk by quirk -/
+
+theorem qIf_apply (c : Bool) (x y : Quirk) : (qIf c x) y = (c && decide (y = x)) := by
+  unfold qIf
+  cases c <;> simp [QSet.ofList, QSet.empty, quirk_beq]
+
+/-- every quirk of the extracted signature in terms of the output's fields and the option walk -/
+def outQ (o : OutPkt) (q : Quirk) : Bool :=
+  match q with
+  | .ecn => o.tos % 4 != 0 || bit o.flags 64 || bit o.flags 128 || bit o.flags 256
+  | .df => o.ipVer != 6 && bit o.ipFlags 2
+  | .nzId => o.ipVer != 6 && bit o.ipFlags 2 && o.ipId != 0
+  | .zeroId => o.ipVer != 6 && !bit o.ipFlags 2 && o.ipId == 0
+  | .nzMbz => o.ipVer != 6 && bit o.ipFlags 4
+  | .flow => o.ipVer == 6 && o.fl != 0
+  | .zeroSeq => o.seq == 0
+  | .nzAck => !bit o.flags 16 && o.ack != 0 && !bit o.flags 4
+  | .zeroAck => bit o.flags 16 && o.ack == 0
+  | .nzUrg => !bit o.flags 32 && o.urp != 0
+  | .urg => bit o.flags 32
+  | .push => bit o.flags 8
+  | .zeroTs1 => (outOpts o).quirks .zeroTs1
+  | .nzTs2 => (outOpts o).quirks .nzTs2
+  | .eolNz => (outOpts o).quirks .eolNz
+  | .exws => (outOpts o).quirks .exws
+  | .bad => (outOpts o).quirks .bad
+
+theorem extract_quirks (o : OutPkt)
+    (hopt : ∀ q, (outOpts o).quirks q = true → q = .zeroTs1 ∨ q = .nzTs2 ∨ q = .eolNz ∨ q = .exws ∨ q = .bad) (q : Quirk) :
+    (extractOut o).quirks q = outQ o q := by
+  have hnot : ∀ q', ¬ (q' = .zeroTs1 ∨ q' = .nzTs2 ∨ q' = .eolNz ∨ q' = .exws ∨ q' = .bad) → (outOpts o).quirks q' = false := by
+    intro q' hq'
+    cases hv : (outOpts o).quirks q' with
+    | false => rfl
+    | true => exact absurd (hopt q' hv) hq'
+  simp only [extractOut, QSet.union, outIpQuirks, outTcpQuirks]
+  by_cases h6 : (o.ipVer == 6) = true
+  · have h6p : o.ipVer = 6 := by simpa using h6
+    simp only [h6, ↓reduceIte, QSet.union, qIf_apply]
+    cases q <;> simp [outQ, h6p, hnot, Bool.or_assoc]
+  · have h6' : (o.ipVer == 6) = false := by simpa using h6
+    have h6n : ¬ o.ipVer = 6 := by simpa using h6
+    have h6b : (o.ipVer != 6) = true := by simpa using h6n
+    simp only [h6', Bool.false_eq_true, ↓reduceIte, QSet.union, qIf_apply]
+    cases q <;> simp [outQ, h6n, h6b, hnot, Bool.or_assoc]
+
+/-! ### helper facts -/
+
+theorem flatMap_encode_length (l : List SOpt) : (l.flatMap SOpt.encode).length = (l.map SOpt.wireLen).sum := by
+  induction l with
+  | nil => rfl
+  | cons o t ih => simp [List.flatMap_cons, ih, SOpt.wireLen]
+
+theorem lastMssOf_no_mss (t : List SOpt) (d : Nat) (h : t.any SOpt.isMss = false) : lastMssOf t d = d := by
+  induction t with
+  | nil => rfl
+  | cons o t ih =>
+    rw [List.any_cons, Bool.or_eq_false_iff] at h
+    obtain ⟨h1, h2⟩ := h
+    have ih' := ih h2
+    simp only [lastMssOf] at ih' ⊢
+    simp only [List.foldl_cons]
+    cases o with
+    | mss v => simp [SOpt.isMss] at h1
+    | _ => exact ih'
+
+theorem lastMss_eq (l : List SOpt) (acc : Option Nat) :
+    l.foldl lastMssStep acc = if l.any SOpt.isMss then some (lastMssOf l (acc.getD 0)) else acc := by
+  induction l generalizing acc with
+  | nil => simp
+  | cons o t ih =>
+    simp only [List.foldl_cons, ih, List.any_cons, lastMssOf]
+    cases o with
+    | mss v =>
+      simp only [lastMssStep, SOpt.isMss, Bool.true_or, ↓reduceIte, Option.getD_some]
+      by_cases ht : t.any SOpt.isMss = true
+      · simp [ht]
+      · have ht' : t.any SOpt.isMss = false := by simpa using ht
+        have := lastMssOf_no_mss t v ht'
+        simp only [lastMssOf] at this
+        simp [ht', this]
+    | _ => simp [lastMssStep, SOpt.isMss]
+
+theorem any_isMss_iff (l : List SOpt) : l.any SOpt.isMss = true ↔ ∃ v, SOpt.mss v ∈ l := by
+  rw [List.any_eq_true]
+  constructor
+  · rintro ⟨o, ho, hm⟩
+    cases o <;> simp [SOpt.isMss] at hm
+    exact ⟨_, ho⟩
+  · rintro ⟨v, hv⟩
+    exact ⟨_, hv, rfl⟩
+
+theorem mem_of_kind_mem (l : List SOpt) (k : Nat) (h : k ∈ l.map SOpt.kind) : ∃ o ∈ l, o.kind = k := by
+  obtain ⟨o, ho, hk⟩ := List.mem_map.mp h
+  exact ⟨o, ho, hk⟩
+
+theorem beq_of_pointwise (a b : QSet) (h : ∀ q, a q = b q) : a.beq b = true := by
+  unfold QSet.beq
+  rw [List.all_eq_true]
+  intro q _
+  simp [h q]
+
+/-- a window that is a multiple of an MSS of at least 100 gets that multiplier, read as MSS multiple -/
+theorem windowMult_of_mss (w : WIn) (n : Nat) (hm : 100 ≤ w.mss) (hn : 1 ≤ n) (hw : w.win = w.mss * n) :
+    windowMult w = ((n : Int), false) := by
+  unfold windowMult
+  have h0 : ¬ (w.win = 0 ∨ w.mss < 100) := by
+    intro h
+    rcases h with h | h
+    · rw [hw] at h
+      have : 0 < w.mss * n := Nat.mul_pos (by omega) (by omega)
+      omega
+    · omega
+  simp only [h0, ↓reduceIte]
+  have hd : divides w.win ((w.mss : Int), false) = true := by
+    unfold divides
+    simp only [Bool.and_eq_true, bne_iff_ne, ne_eq, beq_iff_eq]
+    refine ⟨by omega, ?_⟩
+    rw [hw]
+    push_cast
+    exact Int.mul_emod_right _ _
+  have : (divisors w).find? (divides w.win) = some ((w.mss : Int), false) := by
+    unfold divisors
+    simp only [List.cons_append, List.nil_append, List.find?_cons, hd]
+  rw [this]
+  simp only
+  rw [hw]
+  push_cast
+  have hpos : (w.mss : Int) ≠ 0 := by omega
+  rw [Int.mul_ediv_cancel_left _ hpos]
+
+/-! ### what each option of the output carries -/
+
+/-- what one option of the output carries, relative to the signature -/
+def OptionFacts (s : Sig) (b : Base) (o : SOpt) : Prop :=
+  (∀ v, o = .mss v → (∀ m, s.mss = some m → v = m) ∧ (s.wtype = .mss → 100 ≤ v ∧ v * s.wsize ≤ 65535)) ∧
+  (∀ v, o = .ws v → (∀ w, s.scale = some w → v = w) ∧ (decide (v > 14) = s.quirks .exws)) ∧
+  (∀ x y, o = .ts x y → ((x == 0) = s.quirks .zeroTs1) ∧
+    ((y != 0 && (impTcpType s b == F_SYN)) = s.quirks .nzTs2))
+
+theorem plain_option_facts (s : Sig) (b : Base) (up : Option Int) (hsup : Supported s b)
+    (o : SOpt) (k : Nat) (c' : Nat × Nat)
+    (hio : impOption s b up k c' = ([o], false)) (hok : optChoiceOk s b up k c' = true) :
+    OptionFacts s b o := by
+  unfold OptionFacts
+  have hwz : s.wtype = .mss → 0 < s.wsize := fun h => by have := (hsup.winOk.2.2.1 h).1; omega
+  refine ⟨?_, ?_, ?_⟩
+  · -- MSS
+    intro v hv
+    subst hv
+    have hk : k = 2 := (impOption_kinds s b up k c').1 v (by rw [hio]; simp)
+    subst hk
+    obtain ⟨f1, f2, f3⟩ := impOption_mss s b up c' hwz
+    cases hs : s.mss with
+    | some m =>
+      have := f1 m hs
+      rw [hio] at this
+      have this := SOpt.mss.inj (List.cons.inj (Prod.mk.inj this).1).1
+      subst this
+      refine ⟨fun m' hm' => Option.some.inj hm', fun hw => ?_⟩
+      exact (hsup.winOk.2.2.1 hw).2.2.2 v hs
+    | none =>
+      refine ⟨fun m hm => by simp at hm, fun hw => ?_⟩
+      by_cases hex : ∃ h, b.mssHint = some h ∧ MssAdmissible s h
+      · obtain ⟨h, hh, hadm⟩ := hex
+        have := f2 h hs hh hadm
+        rw [hio] at this
+        have this := SOpt.mss.inj (List.cons.inj (Prod.mk.inj this).1).1
+        subst this
+        obtain ⟨h0, _, h2⟩ := hadm
+        obtain ⟨h3, h4⟩ := h2 hw
+        have e : ((h.toNat : Nat) : Int) = h := Int.toNat_of_nonneg h0
+        constructor
+        · omega
+        · have h5 : ((h.toNat * s.wsize : Nat) : Int) ≤ ((65535 : Nat) : Int) := by
+            rw [Int.natCast_mul, e]; exact h4
+          exact Int.ofNat_le.mp h5
+      · have hbad : ∀ h, b.mssHint = some h → ¬ MssAdmissible s h := fun h hh hadm => hex ⟨h, hh, hadm⟩
+        obtain ⟨g1, g2⟩ := f3 hs hbad
+        rw [hio] at g1
+        have g1 := SOpt.mss.inj (List.cons.inj (Prod.mk.inj g1).1).1
+        subst g1
+        obtain ⟨h0, _, h2⟩ := g2 hok
+        obtain ⟨h3, h4⟩ := h2 hw
+        constructor
+        · omega
+        · have h5 : ((c'.1 * s.wsize : Nat) : Int) ≤ ((65535 : Nat) : Int) := by
+            rw [Int.natCast_mul]; exact h4
+          exact Int.ofNat_le.mp h5
+  · -- window scale
+    intro v hv
+    subst hv
+    have hk : k = 3 := (impOption_kinds s b up k c').2.1 v (by rw [hio]; simp)
+    subst hk
+    obtain ⟨f1, f2, f3⟩ := impOption_ws s b up c'
+    cases hs : s.scale with
+    | some w =>
+      have := f1 w hs
+      rw [hio] at this
+      have this := SOpt.ws.inj (List.cons.inj (Prod.mk.inj this).1).1
+      subst this
+      refine ⟨fun w' hw' => Option.some.inj hw', ?_⟩
+      cases he : s.quirks .exws with
+      | true => have := (hsup.exwsCoherent.1 he).2 v hs; simpa using this
+      | false => have := hsup.exwsCoherent.2 he v hs; simp; omega
+    | none =>
+      refine ⟨fun w hw => by simp at hw, ?_⟩
+      have key : ∀ h : Int, WsAdmissible s h → decide (h.toNat > 14) = s.quirks .exws := by
+        intro h ⟨h0, h1, h2⟩
+        cases he : s.quirks .exws with
+        | true => have := h2.mp he; simp; omega
+        | false =>
+          have : ¬ (14 < h) := fun hc => by have := h2.mpr hc; simp [he] at this
+          simp; omega
+      by_cases hex : ∃ h, b.wsHint = some h ∧ WsAdmissible s h
+      · obtain ⟨h, hh, hadm⟩ := hex
+        have := f2 h hs hh hadm
+        rw [hio] at this
+        have this := SOpt.ws.inj (List.cons.inj (Prod.mk.inj this).1).1
+        subst this
+        exact key h hadm
+      · have hbad : ∀ h, b.wsHint = some h → ¬ WsAdmissible s h := fun h hh hadm => hex ⟨h, hh, hadm⟩
+        obtain ⟨g1, g2⟩ := f3 hs hbad
+        rw [hio] at g1
+        have g1 := SOpt.ws.inj (List.cons.inj (Prod.mk.inj g1).1).1
+        subst g1
+        have := key (c'.1 : Int) (g2 hok)
+        simpa using this
+  · -- timestamps
+    intro x y hxy
+    subst hxy
+    have hk : k = 8 := (impOption_kinds s b up k c').2.2 x y (by rw [hio]; simp)
+    subst hk
+    constructor
+    · obtain ⟨t1, t2, he, g1, g2⟩ := impOption_ts1 s b up c'
+      rw [hio] at he
+      have he := SOpt.ts.inj (List.cons.inj (Prod.mk.inj he).1).1
+      obtain ⟨rfl, rfl⟩ := he
+      cases hz : s.quirks .zeroTs1 with
+      | true => simp [g1 hz]
+      | false =>
+        -- either the uptime argument, a usable hint, or a drawn value: never zero
+        have hx : x ≠ 0 := by
+          have hio' := hio
+          simp only [impOption, Nat.reduceBEq, Bool.false_eq_true, ↓reduceIte, beq_self_eq_true, hz, Prod.mk.injEq,
+            List.cons.injEq, SOpt.ts.injEq, and_true] at hio'
+          cases hu : inRange 1 4294967295 up with
+          | some u =>
+            simp only [hu] at hio'
+            have hu' := hu
+            cases hb : up with
+            | none => simp [hb, inRange] at hu'
+            | some z =>
+              rw [hb, inRange_some] at hu'
+              split at hu'
+              · simp only [Option.some.injEq] at hu'; omega
+              · simp at hu'
+          | none => exact (g2 hz hu).2 hok
+        simp [hx]
+    · obtain ⟨t1, t2, he, g1, g2, g3⟩ := impOption_ts2 s b up c'
+      rw [hio] at he
+      have he := SOpt.ts.inj (List.cons.inj (Prod.mk.inj he).1).1
+      obtain ⟨rfl, rfl⟩ := he
+      by_cases hsyn : impTcpType s b = F_SYN
+      · have hb : (impTcpType s b == F_SYN) = true := by simpa using hsyn
+        simp only [hb, Bool.and_true]
+        cases hq : s.quirks .nzTs2 with
+        | false => simp [g1 hsyn hq]
+        | true =>
+          -- a usable hint or a drawn value: never zero
+          have hy : y ≠ 0 := by
+            have hio' := hio
+            simp only [impOption, Nat.reduceBEq, Bool.false_eq_true, ↓reduceIte, beq_self_eq_true, hb, hq, Bool.not_true,
+              Prod.mk.injEq, List.cons.injEq, SOpt.ts.injEq, and_true] at hio'
+            cases h2 : inRange 1 4294967295 b.ts2Hint with
+            | some u =>
+              have hu' := h2
+              cases hbh : b.ts2Hint with
+              | none => simp [hbh, inRange] at hu'
+              | some z =>
+                rw [hbh, inRange_some] at hu'
+                split at hu'
+                · simp only [Option.some.injEq] at hu'
+                  simp only [h2] at hio'
+                  omega
+                · simp at hu'
+            | none => exact (g2 hsyn hq).2 hok
+          simp [hy]
+      · have hb : (impTcpType s b == F_SYN) = false := by simpa using hsyn
+        simp only [hb, Bool.and_false]
+        cases hq : s.quirks .nzTs2 with
+        | false => rfl
+        | true => exact absurd (hsup.ts2Coherent hq).2 hsyn
+
+/-! ### the output packet for a supported signature -/
+
+/-- everything the final argument needs to know about one run -/
+structure RunFacts (s : Sig) (b : Base) (hops : Int) (mtu : Nat) (up : Option Int) (c : Choices) (o : OutPkt) : Prop where
+  run : impTcp s b hops mtu up c = .ok o
+  optsEq : o.opts = impOptionsGo s b up s.layout c.opt
+  kinds : (impOptionsGo s b up s.layout c.opt).map SOpt.kind = s.layout
+  parsed : ∀ isSyn, parseOpts (encodeOpts o.opts) isSyn =
+    (impOptionsGo s b up s.layout c.opt).foldl (fun st x => stepOpt isSyn x st) Opts.init
+  facts : ∀ x ∈ impOptionsGo s b up s.layout c.opt, ∃ k c', k ∈ s.layout ∧ impOption s b up k c' = ([x], false) ∧
+    optChoiceOk s b up k c' = true
+  noEol : ∀ x ∈ impOptionsGo s b up s.layout c.opt, x ≠ .eol
+  window : (s.wtype = .normal → o.window = s.wsize) ∧ (s.wtype = .mod → o.window = s.wsize * c.winMul) ∧
+    (s.wtype = .mss → o.window = lastMssOf (impOptionsGo s b up s.layout c.opt) 0 * s.wsize ∧
+      ∃ v, SOpt.mss v ∈ impOptionsGo s b up s.layout c.opt) ∧
+    (s.wtype = .any → o.window = b.window)
+
+theorem run_facts (s : Sig) (b : Base) (hops : Int) (mtu : Nat) (up : Option Int) (c : Choices)
+    (hsup : Supported s b) (hc : choicesOk s b up c = true) :
+    ∃ o, RunFacts s b hops mtu up c o := by
+  have hokL : optChoicesOkGo s b up s.layout c.opt = true := by
+    unfold choicesOk at hc
+    simp only [Bool.and_eq_true] at hc
+    exact hc.2
+  obtain ⟨i1, i2, i3, i4, i5⟩ := plain_options s b up s.layout c.opt hsup.layoutPlain hsup.mssFits hsup.scaleFits hokL
+  -- no stretching, no padding: the options fill a multiple of four bytes
+  have hopts : impOptions s b up c = impOptionsGo s b up s.layout c.opt := by
+    unfold impOptions alignOptions
+    simp only [i4, hsup.aligned]
+    rfl
+  have henc : encodeOpts (impOptionsGo s b up s.layout c.opt) = (impOptionsGo s b up s.layout c.opt).flatMap SOpt.encode := by
+    unfold encodeOpts
+    simp only [flatMap_encode_length, i4, hsup.aligned]
+    simp
+  have hparsed : ∀ isSyn, parseOpts (encodeOpts (impOptionsGo s b up s.layout c.opt)) isSyn =
+      (impOptionsGo s b up s.layout c.opt).foldl (fun st x => stepOpt isSyn x st) Opts.init := by
+    intro isSyn
+    rw [henc]
+    unfold parseOpts
+    have := parseOptsGo_encode_list isSyn _ i2 i3 [] Opts.init
+    simp only [List.append_nil] at this
+    rw [this, parseOptsGo_nil]
+  -- the window
+  have hwin : ∃ win, impWindow s b (impOptions s b up c) mtu c = .ok win ∧
+      (s.wtype = .normal → win = s.wsize) ∧ (s.wtype = .mod → win = s.wsize * c.winMul) ∧
+      (s.wtype = .mss → win = lastMssOf (impOptionsGo s b up s.layout c.opt) 0 * s.wsize ∧
+        ∃ v, SOpt.mss v ∈ impOptionsGo s b up s.layout c.opt) ∧
+      (s.wtype = .any → win = b.window) := by
+    rw [hopts]
+    unfold impWindow
+    cases hw : s.wtype with
+    | normal => exact ⟨_, rfl, by simp, by simp, by simp, by simp⟩
+    | mod => exact ⟨_, rfl, by simp, by simp, by simp, by simp⟩
+    | any => exact ⟨_, rfl, by simp, by simp, by simp, by simp⟩
+    | mtu => exact absurd hw hsup.winOk.2.2.2
+    | mss =>
+      have h2 : 2 ∈ s.layout := (hsup.winOk.2.2.1 hw).2.2.1
+      obtain ⟨x, hx, hxk⟩ := mem_of_kind_mem _ 2 (by rw [i1]; exact h2)
+      have hxm : ∃ v, x = .mss v := by
+        cases x <;> simp [SOpt.kind] at hxk
+        · exact ⟨_, rfl⟩
+        · -- an unknown-kind tuple of kind 2 cannot come from a plain layout entry
+          rename_i k n
+          obtain ⟨k', c', _, hio, _⟩ := i5 _ hx
+          have hp : PlainKind k' := hsup.layoutPlain k' (by assumption)
+          obtain ⟨o', ho', _, _, _, _⟩ := impOption_plain s b up k' c' hp hsup.mssFits hsup.scaleFits (by assumption)
+          rw [hio] at ho'
+          have hxo : SOpt.raw k n = o' := (List.cons.inj (Prod.mk.inj ho').1).1
+          have hwf := i2 _ hx
+          simp only [SOpt.WF] at hwf
+          omega
+      obtain ⟨v, rfl⟩ := hxm
+      have hany : (impOptionsGo s b up s.layout c.opt).any SOpt.isMss = true := (any_isMss_iff _).mpr ⟨v, hx⟩
+      have hl : lastMss (impOptionsGo s b up s.layout c.opt) = some (lastMssOf (impOptionsGo s b up s.layout c.opt) 0) := by
+        unfold lastMss
+        rw [lastMss_eq]
+        simp [hany]
+      simp only [hl]
+      exact ⟨_, rfl, by simp, by simp, fun _ => ⟨rfl, v, hx⟩, by simp⟩
+  obtain ⟨win, hw0, hw1, hw2, hw3, hw4⟩ := hwin
+  have hver : (s.ipVer.isSome && s.ipVer != some b.ipVer) = false := by
+    rcases hsup.version with h | h <;> simp [h]
+  refine ⟨{ ipVer := b.ipVer, src := b.src, dst := b.dst, ttl := (s.ttl : Int) - hops,
+            tos := if s.quirks .ecn then c.ecn else 0,
+            ipId := if b.ipVer == 6 then 0 else impIpId s b c,
+            ipFlags := if b.ipVer == 6 then 0 else impIpFlags s b.ipFlags,
+            ipFrag := if b.ipVer == 6 then 0 else b.ipFrag,
+            ipOptLen := if b.ipVer == 6 then 0 else s.olen,
+            fl := if b.ipVer == 6 then (if s.quirks .flow then c.fl else 0) else 0,
+            sport := b.sport, dport := b.dport, seq := impSeq s b c, ack := impAck s b c,
+            flags := impFlags s b.flags, urp := impUrp s b c,
+            window := win, opts := impOptions s b up c, payload := impPayload s b c }, ?_⟩
+  refine ⟨?_, hopts, i1, ?_, i5, i3, ⟨hw1, hw2, hw3, hw4⟩⟩
+  · unfold impTcp
+    simp only [hver, Bool.false_eq_true, ↓reduceIte, hw0]
+  · intro isSyn
+    simp only [hopts]
+    exact hparsed isSyn
+
+/-! ### the quirks of the output are the signature's -/
+
+theorem any_raises_iff (isSyn : Bool) (q : Quirk) (l : List SOpt) :
+    l.any (raises isSyn q) = true ↔ ∃ x ∈ l, raises isSyn q x = true := List.any_eq_true
+
+/-- the option quirks the walk reports are exactly those the signature asks for -/
+theorem run_opt_quirks (s : Sig) (b : Base) (hops : Int) (mtu : Nat) (up : Option Int) (c : Choices) (o : OutPkt)
+    (hadm : Admissible b) (hsup : Supported s b) (hr : RunFacts s b hops mtu up c o) :
+    outIsSyn o = (impTcpType s b == F_SYN) ∧
+    (∀ q, (outOpts o).quirks q =
+      match q with
+      | .exws => s.quirks .exws | .zeroTs1 => s.quirks .zeroTs1 | .nzTs2 => s.quirks .nzTs2 | _ => false) := by
+  obtain ⟨o', ho'⟩ := impTcp_ok s b hops mtu up c o hr.run
+  have hflags : o.flags = impFlags s b.flags := by rw [ho'.2]
+  have F := impFlagsB_facts b.flags hadm.flagsLt (s.quirks .nzAck) (s.quirks .zeroAck) (s.quirks .nzUrg) (s.quirks .urg) (s.quirks .push)
+  simp only at F
+  obtain ⟨_, fSyn, fFin, fRst, fAck, _, _, _, _, _, fType⟩ := F
+  have hsyn : outIsSyn o = (impTcpType s b == F_SYN) := by
+    unfold outIsSyn
+    rw [hflags]
+    unfold impFlags
+    rw [fType, fSyn, fFin, fRst, fAck, impTcpType_syn s b hadm.flagsLt, hadm.syn, hadm.noFin, hadm.noRst]
+    simp
+  refine ⟨hsyn, ?_⟩
+  intro q
+  unfold outOpts
+  rw [hr.parsed, foldl_stepOpt_quirks]
+  simp only [Opts.init, QSet.empty, Bool.false_or]
+  -- facts about every option of the list
+  have hfacts : ∀ x ∈ impOptionsGo s b up s.layout c.opt, OptionFacts s b x := by
+    intro x hx
+    obtain ⟨k, c', _, hio, hok⟩ := hr.facts x hx
+    exact plain_option_facts s b up hsup x k c' hio hok
+  have hkind : ∀ k ∈ s.layout, ∃ x ∈ impOptionsGo s b up s.layout c.opt, x.kind = k := by
+    intro k hk
+    exact mem_of_kind_mem _ k (by rw [hr.kinds]; exact hk)
+  -- options of kind 3 / 8 in a plain-layout list are ws / ts tuples
+  have hshape : ∀ x ∈ impOptionsGo s b up s.layout c.opt, (x.kind = 3 → ∃ v, x = .ws v) ∧ (x.kind = 8 → ∃ a t, x = .ts a t) := by
+    intro x hx
+    obtain ⟨k, c', hk, hio, hok⟩ := hr.facts x hx
+    obtain ⟨o'', ho'', hk'', _, hwf, _⟩ := impOption_plain s b up k c' (hsup.layoutPlain k hk) hsup.mssFits hsup.scaleFits hok
+    rw [hio] at ho''
+    have : x = o'' := (List.cons.inj (Prod.mk.inj ho'').1).1
+    subst this
+    constructor
+    · intro h3
+      cases x <;> simp [SOpt.kind] at h3
+      · exact ⟨_, rfl⟩
+      · simp only [SOpt.WF] at hwf; omega
+    · intro h8
+      cases x <;> simp [SOpt.kind] at h8
+      · exact ⟨_, _, rfl⟩
+      · simp only [SOpt.WF] at hwf; omega
+  cases q with
+  | exws =>
+    simp only
+    cases he : s.quirks .exws with
+    | true =>
+      rw [any_raises_iff]
+      obtain ⟨x, hx, hxk⟩ := hkind 3 (hsup.exwsCoherent.1 he).1
+      obtain ⟨v, rfl⟩ := (hshape x hx).1 hxk
+      have := ((hfacts _ hx).2.1 v rfl).2
+      exact ⟨_, hx, by simp only [raises]; rw [this, he]⟩
+    | false =>
+      rw [Bool.eq_false_iff]
+      intro hany
+      obtain ⟨x, hx, hrx⟩ := (any_raises_iff _ _ _).mp hany
+      cases x <;> simp [raises] at hrx
+      rename_i v
+      have := ((hfacts _ hx).2.1 v rfl).2
+      rw [he] at this
+      simp at this
+      omega
+  | zeroTs1 =>
+    simp only
+    cases he : s.quirks .zeroTs1 with
+    | true =>
+      rw [any_raises_iff]
+      obtain ⟨x, hx, hxk⟩ := hkind 8 (hsup.ts1Coherent he)
+      obtain ⟨a, t, rfl⟩ := (hshape x hx).2 hxk
+      have := ((hfacts _ hx).2.2 a t rfl).1
+      exact ⟨_, hx, by simp only [raises]; rw [this, he]⟩
+    | false =>
+      rw [Bool.eq_false_iff]
+      intro hany
+      obtain ⟨x, hx, hrx⟩ := (any_raises_iff _ _ _).mp hany
+      cases x <;> simp [raises] at hrx
+      rename_i a t
+      have := ((hfacts _ hx).2.2 a t rfl).1
+      rw [he] at this
+      simp [hrx] at this
+  | nzTs2 =>
+    simp only
+    cases he : s.quirks .nzTs2 with
+    | true =>
+      rw [any_raises_iff]
+      obtain ⟨x, hx, hxk⟩ := hkind 8 (hsup.ts2Coherent he).1
+      obtain ⟨a, t, rfl⟩ := (hshape x hx).2 hxk
+      have := ((hfacts _ hx).2.2 a t rfl).2
+      exact ⟨_, hx, by simp only [raises]; rw [hsyn, this, he]⟩
+    | false =>
+      rw [Bool.eq_false_iff]
+      intro hany
+      obtain ⟨x, hx, hrx⟩ := (any_raises_iff _ _ _).mp hany
+      cases x <;> simp [raises] at hrx
+      rename_i a t
+      have := ((hfacts _ hx).2.2 a t rfl).2
+      rw [he, ← hsyn] at this
+      simp [hrx] at this
+  | _ =>
+    simp only
+    rw [Bool.eq_false_iff]
+    intro hany
+    obtain ⟨x, hx, hrx⟩ := (any_raises_iff _ _ _).mp hany
+    cases x <;> simp [raises] at hrx
+
+/-- the seven TCP-header quirks and the three ECN flag bits of the output, whatever the IP version -/
+theorem tcp_header_quirks (s : Sig) (b : Base) (hops : Int) (mtu : Nat) (up : Option Int) (c : Choices) (o : OutPkt)
+    (hadm : Admissible b) (hsup : Supported s b) (hc : choicesOk s b up c = true) (hrun : impTcp s b hops mtu up c = .ok o) :
+    outQ o .zeroSeq = s.quirks .zeroSeq ∧ outQ o .nzAck = s.quirks .nzAck ∧ outQ o .zeroAck = s.quirks .zeroAck ∧
+      outQ o .nzUrg = s.quirks .nzUrg ∧ outQ o .urg = s.quirks .urg ∧ outQ o .push = s.quirks .push ∧
+      bit o.flags 64 = false ∧ bit o.flags 128 = false ∧ bit o.flags 256 = false := by
+  obtain ⟨win, _, ho⟩ := impTcp_ok s b hops mtu up c o hrun
+  have F := impFlagsB_facts b.flags hadm.flagsLt (s.quirks .nzAck) (s.quirks .zeroAck) (s.quirks .nzUrg) (s.quirks .urg) (s.quirks .push)
+  simp only at F
+  obtain ⟨_, _, _, fRst, fAck, fUrg, fPsh, fEce, fCwr, fNs, _⟩ := F
+  have hfl : o.flags = impFlagsB (s.quirks .nzAck) (s.quirks .zeroAck) (s.quirks .nzUrg) (s.quirks .urg) (s.quirks .push) b.flags := by
+    rw [ho]; rfl
+  have fRst' : bit o.flags 4 = false := by rw [hfl]; exact fRst.trans hadm.noRst
+  have fAck' : bit o.flags 16 = (if s.quirks .nzAck then false else if s.quirks .zeroAck then true else bit b.flags 16) := by
+    rw [hfl]; exact fAck
+  have fUrg' : bit o.flags 32 = (if s.quirks .nzUrg then false else if s.quirks .urg then true else false) := by
+    rw [hfl]
+    have hnu : bit b.flags F_URG = false := hadm.noUrg
+    rw [hnu] at fUrg
+    exact fUrg
+  have fPsh' : bit o.flags 8 = s.quirks .push := by rw [hfl]; exact fPsh
+  have fEce' : bit o.flags 64 = false := by rw [hfl]; exact fEce
+  have fCwr' : bit o.flags 128 = false := by rw [hfl]; exact fCwr
+  have fNs' : bit o.flags 256 = false := by rw [hfl]; exact fNs
+  have oSeq : o.seq = impSeq s b c := by rw [ho]
+  have oAck : o.ack = impAck s b c := by rw [ho]
+  have oUrp : o.urp = impUrp s b c := by rw [ho]
+  unfold choicesOk at hc
+  simp only [Bool.and_eq_true, Bool.or_eq_true, Bool.not_eq_true', bne_iff_ne, ne_eq, decide_eq_true_eq] at hc
+  obtain ⟨⟨⟨⟨⟨⟨⟨_, _⟩, cSeq⟩, cAck⟩, cUrp⟩, _⟩, _⟩, _⟩ := hc
+  have ackIff16 : bit b.flags 16 = true ↔ b.ack ≠ 0 := hadm.ackIff
+  refine ⟨?_, ?_, ?_, ?_, ?_, ?_, fEce', fCwr', fNs'⟩
+  · -- seq-
+    simp only [outQ, oSeq, impSeq]
+    cases hz : s.quirks .zeroSeq with
+    | true => simp
+    | false =>
+      by_cases hb : b.seq = 0
+      · have := cSeq; simp [hz, hb] at this
+        simp [hb]; omega
+      · simp [hb]
+  · -- ack+
+    simp only [outQ, fAck', fRst', oAck, impAck]
+    cases hn : s.quirks .nzAck with
+    | true =>
+      by_cases hb : b.ack = 0
+      · have := cAck; simp [hn, hb] at this
+        simp [hb]; omega
+      · simp [hb]
+    | false =>
+      cases hz : s.quirks .zeroAck with
+      | true => simp
+      | false =>
+        cases ha : bit b.flags 16 with
+        | true => simp
+        | false =>
+          have : b.ack = 0 := by
+            by_cases hne : b.ack = 0
+            · exact hne
+            · have := ackIff16.mpr hne; simp [ha] at this
+          simp [this]
+  · -- ack-
+    simp only [outQ, fAck', oAck, impAck]
+    cases hn : s.quirks .nzAck with
+    | true =>
+      have : s.quirks .zeroAck = false := by
+        cases hz : s.quirks .zeroAck with
+        | false => rfl
+        | true => exact absurd ⟨hn, hz⟩ hsup.ackCoherent
+      simp [this]
+    | false =>
+      cases hz : s.quirks .zeroAck with
+      | true => simp
+      | false =>
+        cases ha : bit b.flags 16 with
+        | false => simp
+        | true =>
+          have : b.ack ≠ 0 := ackIff16.mp ha
+          simp [this]
+  · -- uptr+
+    simp only [outQ, fUrg', oUrp, impUrp]
+    cases hn : s.quirks .nzUrg with
+    | true =>
+      by_cases hb : b.urp = 0
+      · have := cUrp; simp [hn, hb] at this
+        simp [hb]; omega
+      · simp [hb]
+    | false => cases s.quirks .urg <;> simp [hadm.urp0]
+  · -- urgf+
+    simp only [outQ, fUrg']
+    cases hn : s.quirks .nzUrg with
+    | true =>
+      have : s.quirks .urg = false := by
+        cases hz : s.quirks .urg with
+        | false => rfl
+        | true => exact absurd ⟨hn, hz⟩ hsup.urgCoherent
+      simp [this]
+    | false => cases s.quirks .urg <;> simp
+  · -- pushf+
+    simp only [outQ, fPsh']
+
+/-- the IP-header quirks of the output (both families), and its ECN bits -/
+theorem ip_header_quirks (s : Sig) (b : Base) (hops : Int) (mtu : Nat) (up : Option Int) (c : Choices) (o : OutPkt)
+    (hadm : Admissible b) (hsup : Supported s b) (hc : choicesOk s b up c = true) (hrun : impTcp s b hops mtu up c = .ok o) :
+    ((o.tos % 4 != 0) = s.quirks .ecn) ∧
+    (b.ipVer = 4 → outQ o .df = s.quirks .df ∧ outQ o .nzId = s.quirks .nzId ∧ outQ o .zeroId = s.quirks .zeroId ∧
+      outQ o .nzMbz = s.quirks .nzMbz ∧ outQ o .flow = false) ∧
+    (b.ipVer = 6 → outQ o .df = false ∧ outQ o .nzId = false ∧ outQ o .zeroId = false ∧ outQ o .nzMbz = false ∧
+      outQ o .flow = s.quirks .flow) := by
+  obtain ⟨win, _, ho⟩ := impTcp_ok s b hops mtu up c o hrun
+  have G := impIpFlagsB_facts b.ipFlags hadm.ipFlagsLt (s.quirks .df) (s.quirks .nzMbz)
+  obtain ⟨_, gDf, gMbz, _⟩ := G
+  unfold choicesOk at hc
+  simp only [Bool.and_eq_true, Bool.or_eq_true, Bool.not_eq_true', bne_iff_ne, ne_eq, decide_eq_true_eq] at hc
+  obtain ⟨⟨⟨⟨⟨⟨⟨cIp, cEcn⟩, _⟩, _⟩, _⟩, _⟩, _⟩, _⟩ := hc
+  have oTos : o.tos = if s.quirks .ecn then c.ecn else 0 := by rw [ho]
+  refine ⟨?_, ?_, ?_⟩
+  · rw [oTos]
+    cases he : s.quirks .ecn with
+    | true => have := cEcn; simp [he] at this; simp; omega
+    | false => simp
+  · intro h4
+    have hv6 : (b.ipVer == 6) = false := by simp [h4]
+    have oVer : o.ipVer = 4 := by rw [ho]; exact h4
+    have oFlags : o.ipFlags = impIpFlagsB (s.quirks .df) (s.quirks .nzMbz) b.ipFlags := by rw [ho]; simp [hv6, impIpFlags]
+    have oId : o.ipId = impIpId s b c := by rw [ho]; simp [hv6]
+    have cIp' : b.ipId ≠ 0 ∨ (s.quirks .df = true ∧ s.quirks .nzId = false) ∨ (s.quirks .df = false ∧ s.quirks .zeroId = true) ∨
+        (1 ≤ c.id ∧ c.id < 65536) := by
+      have := cIp
+      simp only [hv6, Bool.false_eq_true, ↓reduceIte, Bool.or_eq_true, bne_iff_ne, ne_eq, Bool.and_eq_true,
+        Bool.not_eq_true', decide_eq_true_eq] at this
+      rcases this with ((h | h) | h) | h
+      · exact Or.inl h
+      · exact Or.inr (Or.inl h)
+      · exact Or.inr (Or.inr (Or.inl h))
+      · exact Or.inr (Or.inr (Or.inr h))
+    refine ⟨?_, ?_, ?_, ?_, ?_⟩
+    · simp [outQ, oVer, oFlags, gDf]
+    · simp only [outQ, oVer, oFlags, gDf, oId, impIpId]
+      cases hd : s.quirks .df with
+      | false =>
+        have : s.quirks .nzId = false := by
+          cases hn : s.quirks .nzId with
+          | false => rfl
+          | true => have := hsup.idCoherent.1 hn; simp [hd] at this
+        simp [this]
+      | true =>
+        cases hn : s.quirks .nzId with
+        | false => simp
+        | true =>
+          by_cases hb : b.ipId = 0
+          · rcases cIp' with h | h | h | h
+            · exact absurd hb h
+            · simp [hn] at h
+            · simp [hd] at h
+            · simp [hb]; omega
+          · simp [hb]
+    · simp only [outQ, oVer, oFlags, gDf, oId, impIpId]
+      cases hd : s.quirks .df with
+      | true =>
+        have : s.quirks .zeroId = false := by
+          cases hn : s.quirks .zeroId with
+          | false => rfl
+          | true => have := hsup.idCoherent.2 hn; simp [hd] at this
+        simp [this]
+      | false =>
+        cases hn : s.quirks .zeroId with
+        | true => simp
+        | false =>
+          by_cases hb : b.ipId = 0
+          · rcases cIp' with h | h | h | h
+            · exact absurd hb h
+            · simp [hd] at h
+            · simp [hn] at h
+            · simp [hb]; omega
+          · simp [hb]
+    · simp [outQ, oVer, oFlags, gMbz]
+    · simp [outQ, oVer]
+  · intro h6
+    have hv6 : (b.ipVer == 6) = true := by simp [h6]
+    have oVer : o.ipVer = 6 := by rw [ho]; exact h6
+    have oFl : o.fl = if s.quirks .flow then c.fl else 0 := by rw [ho]; simp [hv6]
+    refine ⟨by simp [outQ, oVer], by simp [outQ, oVer], by simp [outQ, oVer], by simp [outQ, oVer], ?_⟩
+    simp only [outQ, oVer, oFl]
+    cases hf : s.quirks .flow with
+    | true =>
+      have := cIp
+      simp [hv6, hf] at this
+      simp; omega
+    | false => simp
+
+/-- **the quirk comparison**: every quirk of the output's extracted signature equals the signature's quirk after
+    the family mask - so the comparison in `tcp_signatures_match` finds the sets equal -/
+theorem run_quirks (s : Sig) (b : Base) (hops : Int) (mtu : Nat) (up : Option Int) (c : Choices) (o : OutPkt)
+    (hadm : Admissible b) (hsup : Supported s b) (hc : choicesOk s b up c = true) (hr : RunFacts s b hops mtu up c o) :
+    ∀ q, maskedQ s (extractOut o).toPSig q = (extractOut o).toPSig.quirks q := by
+  obtain ⟨hsynEq, hoq⟩ := run_opt_quirks s b hops mtu up c o hadm hsup hr
+  have hopt : ∀ q, (outOpts o).quirks q = true → q = .zeroTs1 ∨ q = .nzTs2 ∨ q = .eolNz ∨ q = .exws ∨ q = .bad := by
+    intro q hq
+    rw [hoq q] at hq
+    cases q <;> simp_all
+  obtain ⟨t1, t2, t3, t4, t5, t6, e1, e2, e3⟩ := tcp_header_quirks s b hops mtu up c o hadm hsup hc hr.run
+  obtain ⟨iEcn, i4, i6⟩ := ip_header_quirks s b hops mtu up c o hadm hsup hc hr.run
+  have hecn : outQ o .ecn = s.quirks .ecn := by simp only [outQ, e1, e2, e3, Bool.or_false]; exact iEcn
+  obtain ⟨win, _, ho⟩ := impTcp_ok s b hops mtu up c o hr.run
+  have hpv : (extractOut o).toPSig.ipVer = b.ipVer := by rw [ho]; rfl
+  intro q
+  have hpq : (extractOut o).toPSig.quirks q = outQ o q := extract_quirks o hopt q
+  rw [hpq]
+  rcases hadm.ver with h4 | h6
+  · obtain ⟨j1, j2, j3, j4, j5⟩ := i4 h4
+    have hmask : maskedQ s (extractOut o).toPSig q = (s.quirks q && !decide (q = .flow)) := by
+      unfold maskedQ
+      rw [hpv, h4]
+      rcases hsup.version with hv | hv
+      · simp only [hv, Option.isNone_none, ↓reduceIte, QSet.inter, v6Only]
+        cases q <;> simp [quirk_beq, QSet.compl, QSet.ofList]
+      · have hf := hsup.famCoherent.1 h4 (by rw [hv, h4])
+        simp only [hv, Option.isNone_some, Bool.false_eq_true, ↓reduceIte]
+        cases q <;> simp [hf]
+    rw [hmask]
+    cases q
+    case ecn => simp [hecn]
+    case df => simp [j1]
+    case nzId => simp [j2]
+    case zeroId => simp [j3]
+    case nzMbz => simp [j4]
+    case flow => simp [j5]
+    case zeroSeq => simp [t1]
+    case nzAck => simp [t2]
+    case zeroAck => simp [t3]
+    case nzUrg => simp [t4]
+    case urg => simp [t5]
+    case push => simp [t6]
+    case zeroTs1 => simp [outQ, hoq]
+    case nzTs2 => simp [outQ, hoq]
+    case eolNz => simp [outQ, hoq, hsup.noEolNz]
+    case exws => simp [outQ, hoq]
+    case bad => simp [outQ, hoq, hsup.noBad]
+  · obtain ⟨j1, j2, j3, j4, j5⟩ := i6 h6
+    have hmask : maskedQ s (extractOut o).toPSig q =
+        (s.quirks q && !(decide (q = .df) || decide (q = .nzId) || decide (q = .zeroId) || decide (q = .nzMbz))) := by
+      unfold maskedQ
+      rw [hpv, h6]
+      rcases hsup.version with hv | hv
+      · simp only [hv, Option.isNone_none, ↓reduceIte, QSet.inter, v4Only]
+        cases q <;> simp [quirk_beq, QSet.compl, QSet.ofList]
+      · obtain ⟨c1, c2, c3, c4⟩ := hsup.famCoherent.2 h6 (by rw [hv, h6])
+        simp only [hv, Option.isNone_some, Bool.false_eq_true, ↓reduceIte]
+        cases q <;> simp [c1, c2, c3, c4]
+    rw [hmask]
+    cases q
+    case ecn => simp [hecn]
+    case df => simp [j1]
+    case nzId => simp [j2]
+    case zeroId => simp [j3]
+    case nzMbz => simp [j4]
+    case flow => simp [j5]
+    case zeroSeq => simp [t1]
+    case nzAck => simp [t2]
+    case zeroAck => simp [t3]
+    case nzUrg => simp [t4]
+    case urg => simp [t5]
+    case push => simp [t6]
+    case zeroTs1 => simp [outQ, hoq]
+    case nzTs2 => simp [outQ, hoq]
+    case eolNz => simp [outQ, hoq, hsup.noEolNz]
+    case exws => simp [outQ, hoq]
+    case bad => simp [outQ, hoq, hsup.noBad]
+
+/-! ### the theorem -/
+
+theorem ipOptBytes_length (n : Nat) (h : n % 4 = 0) : (ipOptBytes n).length = n := by
+  unfold ipOptBytes
+  simp [h]
+
+/-- **C05 (partial: the class `Supported`)**: for every supported signature, every admissible base packet of a
+    compatible IP version, every `extra_hops` below both the signature TTL and the maximum distance, and EVERY outcome
+    of the random draws that lies in the ranges the impersonator draws from, `impersonate_tcp` returns a packet -
+    without raising - whose extracted signature matches the requested signature exactly, at TTL distance `extra_hops`. -/
+theorem imp_exact_partial (s : Sig) (b : Base) (hops d : Int) (mtu : Nat) (up : Option Int) (c : Choices)
+    (hadm : Admissible b) (hsup : Supported s b) (hc : choicesOk s b up c = true)
+    (hh0 : 0 ≤ hops) (hh1 : hops < s.ttl) (hh2 : hops ≤ d) :
+    ∃ o, impTcp s b hops mtu up c = .ok o ∧ tcpMatchPkt s (extractOut o) d = some .exact ∧
+      (s.ttl : Int) - ((extractOut o).ttl : Int) = hops := by
+  obtain ⟨o, hr⟩ := run_facts s b hops mtu up c hsup hc
+  refine ⟨o, hr.run, ?_, ?_⟩
+  · -- the match
+    have hq := run_quirks s b hops mtu up c o hadm hsup hc hr
+    obtain ⟨hsynEq, hoq⟩ := run_opt_quirks s b hops mtu up c o hadm hsup hr
+    obtain ⟨win, _, ho⟩ := impTcp_ok s b hops mtu up c o hr.run
+    -- the option walk
+    have hfold : outOpts o = (impOptionsGo s b up s.layout c.opt).foldl (fun st x => stepOpt (outIsSyn o) x st) Opts.init := by
+      unfold outOpts; exact hr.parsed _
+    have hlayout : (outOpts o).layout = s.layout := by
+      rw [hfold, foldl_stepOpt_layout _ _ hr.noEol, hr.kinds]; simp [Opts.init]
+    have hpad : (outOpts o).eolPad = 0 := by rw [hfold, foldl_stepOpt_eolPad]; rfl
+    have hmss : (outOpts o).mss = lastMssOf (impOptionsGo s b up s.layout c.opt) 0 := by
+      rw [hfold, foldl_stepOpt_mss']; rfl
+    have hws : (outOpts o).ws = lastWsOf (impOptionsGo s b up s.layout c.opt) 0 := by
+      rw [hfold, foldl_stepOpt_ws']; rfl
+    have hfacts : ∀ x ∈ impOptionsGo s b up s.layout c.opt, OptionFacts s b x := by
+      intro x hx
+      obtain ⟨k, c', _, hio, hok⟩ := hr.facts x hx
+      exact plain_option_facts s b up hsup x k c' hio hok
+    have hkindMem : ∀ k ∈ s.layout, ∃ x ∈ impOptionsGo s b up s.layout c.opt, x.kind = k := by
+      intro k hk
+      exact mem_of_kind_mem _ k (by rw [hr.kinds]; exact hk)
+    -- the fields of the packet signature
+    set_option maxRecDepth 4096 in
+    have kv : (extractOut o).toPSig.ipVer = b.ipVer := by rw [ho]; rfl
+    have klay : (extractOut o).toPSig.layout = s.layout := hlayout
+    have kpad : (extractOut o).toPSig.eolPad = 0 := hpad
+    have kolen : (extractOut o).toPSig.olen = (s.olen : Int) := by
+      show (if o.ipVer == 6 then (0 : Int) else ((ipOptBytes o.ipOptLen).length : Int)) = s.olen
+      rw [ho]
+      simp only
+      rcases hadm.ver with h4 | h6
+      · have : (b.ipVer == 6) = false := by simp [h4]
+        simp only [this, Bool.false_eq_true, ↓reduceIte]
+        rw [ipOptBytes_length _ hsup.olenV.2]
+      · have : (b.ipVer == 6) = true := by simp [h6]
+        simp only [this, ↓reduceIte]
+        rw [hsup.olenV.1 h6]; rfl
+    have kttl : ((extractOut o).toPSig.ttl : Int) = s.ttl - hops := by
+      show ((o.ttl.toNat : Nat) : Int) = s.ttl - hops
+      rw [ho]
+      simp only
+      exact Int.toNat_of_nonneg (by omega)
+    have kmss : (extractOut o).toPSig.mss = lastMssOf (impOptionsGo s b up s.layout c.opt) 0 := hmss
+    have kws : (extractOut o).toPSig.wscale = lastWsOf (impOptionsGo s b up s.layout c.opt) 0 := hws
+    have kpay : (extractOut o).toPSig.hasPayload = !o.payload.isEmpty := rfl
+    have kwin : (extractOut o).toPSig.win = o.window := rfl
+    -- criteria one by one
+    have c_mss : ∀ m, s.mss = some m → (extractOut o).toPSig.mss = m := by
+      intro m hm
+      rw [kmss]
+      rcases lastMssOf_mem (impOptionsGo s b up s.layout c.opt) 0 with h | ⟨h1, h2⟩
+      · exact ((hfacts _ h).1 _ rfl).1 m hm
+      · rcases hsup.mssCoherent m hm with h2' | h0
+        · obtain ⟨x, hx, hxk⟩ := hkindMem 2 h2'
+          obtain ⟨k, c', hk, hio, hok⟩ := hr.facts x hx
+          obtain ⟨o'', ho'', _, _, hwf, _⟩ := impOption_plain s b up k c' (hsup.layoutPlain k hk) hsup.mssFits hsup.scaleFits hok
+          rw [hio] at ho''
+          have hxe : x = o'' := (List.cons.inj (Prod.mk.inj ho'').1).1
+          subst hxe
+          cases x <;> simp [SOpt.kind] at hxk
+          · exact absurd hx (h2 _)
+          · simp only [SOpt.WF] at hwf; omega
+        · rw [h1, h0]
+    have c_ws : ∀ w, s.scale = some w → (extractOut o).toPSig.wscale = w := by
+      intro w hw
+      rw [kws]
+      rcases lastWsOf_mem (impOptionsGo s b up s.layout c.opt) 0 with h | ⟨h1, h2⟩
+      · exact ((hfacts _ h).2.1 _ rfl).1 w hw
+      · rcases hsup.scaleCoherent w hw with h2' | h0
+        · obtain ⟨x, hx, hxk⟩ := hkindMem 3 h2'
+          obtain ⟨k, c', hk, hio, hok⟩ := hr.facts x hx
+          obtain ⟨o'', ho'', _, _, hwf, _⟩ := impOption_plain s b up k c' (hsup.layoutPlain k hk) hsup.mssFits hsup.scaleFits hok
+          rw [hio] at ho''
+          have hxe : x = o'' := (List.cons.inj (Prod.mk.inj ho'').1).1
+          subst hxe
+          cases x <;> simp [SOpt.kind] at hxk
+          · exact absurd hx (h2 _)
+          · simp only [SOpt.WF] at hwf; omega
+        · rw [h1, h0]
+    have c_pay : ∀ p, s.payClass = some p → (extractOut o).toPSig.hasPayload = p := by
+      intro p hp
+      rw [kpay, ho]
+      simp only [impPayload, hp]
+      cases p with
+      | false => simp
+      | true =>
+        by_cases hb : b.payload.isEmpty = true
+        · simp only [hb, ↓reduceIte]
+          unfold choicesOk at hc
+          simp only [Bool.and_eq_true, Bool.or_eq_true, Bool.not_eq_true', bne_iff_ne, ne_eq, decide_eq_true_eq] at hc
+          have := hc.1.2
+          simp [hp, hb] at this
+          cases hcp : c.payload with
+          | nil => simp [hcp] at this
+          | cons x t => simp
+        · simp [hb]
+    have c_win : windowBad s (extractOut o).toPSig = false := by
+      unfold windowBad
+      rw [kwin]
+      obtain ⟨w1, w2, w3, w4⟩ := hr.window
+      cases hw : s.wtype with
+      | normal => simp [w1 hw]
+      | any => simp
+      | mod => simp [w2 hw]
+      | mtu => exact absurd hw hsup.winOk.2.2.2
+      | mss =>
+        obtain ⟨hwv, v, hv⟩ := w3 hw
+        -- the last MSS of the list is one of its MSS options, hence at least 100 with window MSS*N
+        have hmem : SOpt.mss (lastMssOf (impOptionsGo s b up s.layout c.opt) 0) ∈ impOptionsGo s b up s.layout c.opt := by
+          rcases lastMssOf_mem (impOptionsGo s b up s.layout c.opt) 0 with h | ⟨_, h2⟩
+          · exact h
+          · exact absurd hv (h2 v)
+        obtain ⟨h100, _⟩ := ((hfacts _ hmem).1 _ rfl).2 hw
+        have hmult := windowMult_of_mss (extractOut o).wIn s.wsize
+          (by show 100 ≤ (outOpts o).mss; rw [hmss]; exact h100)
+          (hsup.winOk.2.2.1 hw).1
+          (by show o.window = (outOpts o).mss * s.wsize; rw [hmss, hwv])
+        have e1 : (extractOut o).toPSig.multVal = (s.wsize : Int) := by
+          show (windowMult (extractOut o).wIn).1 = _; rw [hmult]
+        have e2 : (extractOut o).toPSig.multMtu = false := by
+          show (windowMult (extractOut o).wIn).2 = _; rw [hmult]
+        simp [e1, e2]
+    -- assemble
+    unfold tcpMatchPkt tcpMatch
+    have hbeq := beq_of_pointwise _ _ hq
+    have hver : (s.ipVer.isSome && s.ipVer != some (extractOut o).toPSig.ipVer) = false := by
+      rw [kv]; rcases hsup.version with h | h <;> simp [h]
+    have hm : (s.mss.isSome && s.mss != some (extractOut o).toPSig.mss) = false := by
+      cases hs : s.mss with
+      | none => simp
+      | some m => simp [c_mss m hs]
+    have hsc : (s.scale.isSome && s.scale != some (extractOut o).toPSig.wscale) = false := by
+      cases hs : s.scale with
+      | none => simp
+      | some w => simp [c_ws w hs]
+    have hp : (s.payClass.isSome && s.payClass != some (extractOut o).toPSig.hasPayload) = false := by
+      cases hs : s.payClass with
+      | none => simp
+      | some p => simp [c_pay p hs]
+    have httl1 : ¬ (s.ttl < (extractOut o).toPSig.ttl) := by
+      have := kttl; omega
+    have httl2 : ¬ ((s.ttl : Int) - (extractOut o).toPSig.ttl > d) := by
+      rw [kttl]; omega
+    simp only [klay, bne_self_eq_false, Bool.false_eq_true, ↓reduceIte, hver, quirkStep, hbeq, Bool.not_true,
+      kpad, hsup.eolPad0, kolen, Bool.or_self, hm, hsc, hp, c_win, httl1, httl2, decide_false, Bool.or_false]
+    cases s.badTtl <;> simp
+  · -- the distance
+    obtain ⟨win, _, ho⟩ := impTcp_ok s b hops mtu up c o hr.run
+    show (s.ttl : Int) - ((o.ttl.toNat : Nat) : Int) = hops
+    rw [ho]
+    simp only
+    rw [Int.toNat_of_nonneg (by omega)]
+    omega
+
+/-! ### non-vacuity: a concrete supported signature, admissible base and in-range choices -/
+
+/-- `*:64:0:*:mss*4,7:mss,nop,ws:df,id+:0` -/
+def exSig : Sig :=
+  { ipVer := none, olen := 0, ttl := 64, badTtl := false, wtype := .mss, wsize := 4, scale := some 7,
+    layout := [2, 1, 3], mss := none, eolPad := 0, payClass := some false, quirks := QSet.ofList [.df, .nzId] }
+
+/-- an IPv4 SYN with id 0, sequence number 0, an MSS hint of 50 (inadmissible with `mss*4`) and a payload -/
+def exBase : Base :=
+  { ipVer := 4, src := [10, 0, 0, 1], dst := [10, 0, 0, 2], ipFlags := 0, ipId := 0, ipFrag := 0, sport := 1234, dport := 80,
+    seq := 0, ack := 0, flags := 0x02, urp := 0, window := 1111, mssHint := some 50, wsHint := none, ts1Hint := none,
+    ts2Hint := none, payload := [65] }
+
+def exChoices : Choices :=
+  { id := 777, fl := 1, ecn := 1, seq := 4242, ack := 1, urp := 1, winMul := 1, payload := [66], opt := [(1400, 0), (0, 0), (0, 0)] }
+
+theorem exBase_admissible : Admissible exBase := by
+  refine ⟨by decide, by decide, by decide, by decide, ?_, by decide, rfl, Or.inl rfl, by decide, by decide, rfl⟩
+  decide
+
+theorem exSig_supported : Supported exSig exBase := by
+  refine { version := Or.inl rfl, layoutPlain := ?_, aligned := by decide, eolPad0 := rfl, olenV := ⟨fun _ => rfl, by decide⟩,
+           ttlOk := by decide, mssFits := ?_, scaleFits := ?_, winOk := ?_, noBad := by decide, noEolNz := by decide,
+           idCoherent := by decide, ackCoherent := by decide, urgCoherent := by decide, famCoherent := ?_,
+           exwsCoherent := ?_, mssCoherent := ?_, scaleCoherent := ?_, ts1Coherent := by decide, ts2Coherent := by decide }
+  · intro k hk; simp [exSig] at hk; rcases hk with rfl | rfl | rfl <;> simp
+  · intro m hm; simp [exSig] at hm
+  · intro w hw; simp [exSig] at hw; omega
+  · refine ⟨by simp [exSig], by simp [exSig], ?_, by simp [exSig]⟩
+    intro _; refine ⟨by simp [exSig], by simp [exSig], by simp [exSig], ?_⟩
+    intro m hm; simp [exSig] at hm
+  · exact ⟨fun _ h => by simp [exSig] at h, fun h => by simp [exBase] at h⟩
+  · exact ⟨fun h => by simp [exSig, QSet.ofList] at h, fun _ w hw => by simp [exSig] at hw; omega⟩
+  · intro m hm; simp [exSig] at hm
+  · intro w hw; left; simp [exSig]
+
+theorem exChoices_ok : choicesOk exSig exBase none exChoices = true := by decide +kernel
+
+/-- the theorem applies to the example: the run returns a packet that matches `exSig` exactly at distance 3 -/
+example : ∃ o, impTcp exSig exBase 3 1500 none exChoices = .ok o ∧ tcpMatchPkt exSig (extractOut o) 35 = some .exact ∧
+    (exSig.ttl : Int) - ((extractOut o).ttl : Int) = 3 :=
+  imp_exact_partial exSig exBase 3 35 1500 none exChoices exBase_admissible exSig_supported exChoices_ok
+    (by decide) (by decide) (by decide)
 
 end P0f
